@@ -11,4 +11,7 @@ fail=0
 # build in parallel (4 at a time): the first build compiles fiber+fasthttp, later ones reuse the cache
 printf '%s\n' $ids | head -1 | while read -r id; do VERIF_BUILD_ONLY=1 ./check "$id" quick || exit 1; done || fail=1
 printf '%s\n' $ids | tail -n +2 | xargs -r -P 4 -I{} env VERIF_BUILD_ONLY=1 ./check {} quick || fail=1
-[ $fail -eq 0 ] && echo "setup ok" || { echo "setup FAILED"; exit 1; }
+# A harness that does not build is reported by its own check (every check rebuilds from the current tree);
+# the pre-build is only a cache warm-up and must not keep the other checks from running.
+[ $fail -eq 0 ] && echo "setup ok" || echo "setup: at least one harness did not pre-build (its check will report it)"
+exit 0
